@@ -94,7 +94,10 @@ func init() {
 		Units: []string{
 			modPath + "/js.(*renamer).isReserved",
 			modPath + "/js.(*renamer).renameScope",
+			"github.com/tdewolff/parse/v2/js.(*Scope).AddUndeclared",
 		},
+		Custom:  []string{"partial"},
+		Partial: []string{modPath + "/js.(*jsMinifier).hoistVars"},
 		Bounded: []BoundedUnit{
 			{Harness: modPath + "/js.specHarnessRenamerNames2", For: modPath + "/js.(*renamer).getName", QuickN: 1, ThoroughN: 1, Tier: "quick",
 				What: "every index of a one- or two-character name, both alphabets, in-place and reallocating buffers: getName yields an IdentifierName and getIndex(getName(i)) == i (hence injective)"},
@@ -104,7 +107,8 @@ func init() {
 		Notes: []string{
 			"per-scope slice of capture-freedom: (1) isReserved reports every reserved word of length > 1 (and nothing else when there are no undeclared variables); (2) renameScope makes no call at all (hence writes nothing through getName/isReserved) when renaming is off; (3) generated names are IdentifierNames and distinct for distinct indices below the bound",
 			"A-parser: *Var pointers in Declared/Undeclared are non-nil; Undeclared lists every variable used in the scope or below that is declared outside (the invariant the whole property rests on) - not verified",
-			"not decided: the comparison against link-resolved undeclared names (Link chains), sort.Sort permutation, scopes renamed parents-first, hoisting (hoistVars), shorthand re-expansion",
+			"hoisting: a var moved into the hoisting target is registered as undeclared in EVERY block scope on the parent chain from the target's scope up to (excluding) the function scope - per-iteration contract of the walk in the real hoistVars (one AddUndeclared(ref) on the current scope, then its parent) plus the exit assertion (nil or function scope reached); AddUndeclared itself is verified against the dependency's source (v ends up listed; only s.Undeclared and its spare capacity change, so the Parent/Func links are kept)",
+			"not decided: the comparison against link-resolved undeclared names (Link chains), sort.Sort permutation, scopes renamed parents-first, the rest of hoistVars (which declarations move, reordering), shorthand re-expansion",
 			"A-key: content keys (uninterpreted ckey) identify byte-string contents; bytes.Equal and map lookups by string(name) are expressed through them",
 		},
 	})
@@ -157,8 +161,9 @@ func init() {
 		ID:     "C19",
 		Custom: []string{"partial"},
 		Partial: []string{modPath + "/cmd/minify.minify"},
-		Units:  []string{modPath + ".(*M).MinifyMimetype", modPath + ".(*M).Minify"},
+		Units:  []string{modPath + ".(*M).MinifyMimetype", modPath + ".(*M).Minify", modPath + "/cmd/minify.compilePattern"},
 		Notes: []string{
+			"compilePattern (the --include/--exclude/--match filters) under full contract over the ghost trace: a ~pattern is compiled untouched; a glob is quoted, each rewrite consumes the previous result, the `**` rewrite (to `.*`) happens before the `*` rewrite, `?` is rewritten, and the returned regexp/error are those of regexp.Compile on the end of that pipeline",
 			"site assertions over the ghost call trace of the real cmd/minify minify(t): [C19-fallback-original] when the library fails, the buffer copied to the destination is created over exactly the bytes that io.ReadAll returned (content-key equality across the failed m.Minify call, which rests on A-frame: a minifier writes bytes only into its writer's buffer, its reader's exposed buffer, or fresh memory - carried through the proved contracts of (*M).Minify/MinifyMimetype); [C20-backup-removed-only-after-success] os.Remove of the backup happens only on the path where io.Copy returned nil and only for the name dst+\".bak\"",
 			"try.Do(f) is modelled as one execution of f's body (A-try); the operating system and std library calls are trace events (A-os)",
 			"not decided: task creation (createTasks: closures over fs.WalkDir), destination computation, filters, the worker pool, exit status plumbing, watch mode, attribute preservation, bundles (concatFileReader), 'modifies no other file', and the leftover-backup clause (design finding F8: hard-linked src/dst leaves <src>.bak because cleanup compares names while the rename is decided by SameFile - not derived by this machinery)",
